@@ -4,7 +4,13 @@ import (
 	"fmt"
 	"sync"
 	"time"
+	"unsafe"
 )
+
+func chanKey2(ch chan time.Time) uintptr {
+	id, _ := chanID(ch)
+	return id
+}
 
 // Library timers on the simulated clock. The rewriter maps time.After, time.NewTimer, time.AfterFunc,
 // time.NewTicker, time.Tick and the types time.Timer / time.Ticker to these. Channels have capacity 1 and are
@@ -21,7 +27,13 @@ type Timer struct {
 	active bool
 	seq    int
 	real   *time.Timer
+	// syncVar: starting or resetting a timer happens before its firing is observed (the runtime's timers do the
+	// same for the race detector)
+	syncVar byte
 }
+
+//go:norace
+func (tm *Timer) syncAddr() unsafe.Pointer { return unsafe.Pointer(&tm.syncVar) }
 
 // Ticker replaces time.Ticker.
 type Ticker struct {
@@ -39,6 +51,9 @@ const (
 //go:norace
 func timerCtl(tm *Timer, action int, d time.Duration) bool {
 	t := me()
+	if action != timerStop {
+		raceReleaseMerge(tm.syncAddr())
+	}
 	t.req = request{kind: opTimer, keep: tm, n: action, dur: d, cold: true}
 	t.call()
 	return t.resp.idx == 1
@@ -68,7 +83,11 @@ func AfterFunc(d time.Duration, f func()) *Timer {
 	if me() == nil {
 		return &Timer{real: time.AfterFunc(d, f)}
 	}
-	tm := &Timer{fn: f}
+	tm := &Timer{}
+	tm.fn = func() {
+		raceAcquire(tm.syncAddr())
+		f()
+	}
 	timerCtl(tm, timerNew, d)
 	return tm
 }
@@ -161,6 +180,9 @@ func (s *Sim) timerRequest(t *Task) string {
 		if tm.seq == 0 {
 			s.tseq++
 			tm.seq = s.tseq
+			if tm.c != nil {
+				s.timerByChan[chanKey2(tm.c)] = tm
+			}
 		}
 		tm.due = s.now + t.req.dur
 		if !tm.active {
@@ -243,7 +265,8 @@ func condUnlock(site int, l sync.Locker) {
 	case *sync.RWMutex:
 		RWUnlock(site, m)
 	default:
-		l.Unlock() // e.g. the RLocker of a rewritten RWMutex: its methods are seams already
+		lockerUnknown(l)
+		l.Unlock()
 	}
 }
 
@@ -254,7 +277,18 @@ func condLock(site int, l sync.Locker) {
 	case *sync.RWMutex:
 		RWLock(site, m)
 	default:
+		lockerUnknown(l)
 		l.Lock()
+	}
+}
+
+// lockerUnknown: a sync.Locker whose dynamic type is not a mutex the simulator models - a struct that embeds one,
+// say: the promoted real method would run behind the model's back.
+//
+//go:norace
+func lockerUnknown(l sync.Locker) {
+	if t := me(); t != nil {
+		t.s.machineryFromTask(fmt.Sprintf("sync.Locker of dynamic type %T is not modelled", l))
 	}
 }
 
